@@ -90,15 +90,33 @@ def dedup_key(F, body, call):
     return None
 
 
-def _upvar_uses(cb, k):
-    """classify the uses of upvar k inside closure body cb: returns dict(writes=[ln], cmp_reads=[ln], other_reads=[ln],
-    nested=[(closure body, k2)])"""
+def _upvar_written_fields(cb, k):
+    """field paths of upvar k that closure cb writes (() = the captured variable itself; ('max_seen',) = a field of a
+    captured struct that carries the running state)"""
+    eb = ExprBuilder(cb)
+    out = set()
+    for i in sorted(cb.live_blocks()):
+        for si, s in enumerate(cb.blocks[i]['st']):
+            if s['k'] != 'assign':
+                continue
+            lhs = s['lhs']
+            if lhs['p'] and lhs['p'][0] == '*':
+                tgt = eb.place(lhs['l'], tuple(proj_key_(p) for p in lhs['p']), 0, (i, si))
+                if tgt.kind == 'place' and tgt.root == ('upvar', k):
+                    out.add(tuple(tgt.fields))
+    return out
+
+
+def _upvar_uses(cb, k, fields=()):
+    """classify the uses of upvar k (or of its field path `fields`) inside closure body cb: returns dict(writes=[ln],
+    cmp_reads=[ln], other_reads=[ln], nested=[(closure body, k2)])"""
     eb = ExprBuilder(cb)
     res = {'writes': [], 'cmp_reads': [], 'other_reads': [], 'nested': [], 'write_blocks': []}
+    fields = tuple(fields)
 
     def is_acc(e):
         e = e.strip() if e.kind in ('call', 'cast') else e
-        return e.kind == 'place' and e.root == ('upvar', k) and not e.fields
+        return e.kind == 'place' and e.root == ('upvar', k) and tuple(e.fields) == fields
 
     for i in sorted(cb.live_blocks()):
         for si, s in enumerate(cb.blocks[i]['st']):
@@ -108,7 +126,7 @@ def _upvar_uses(cb, k):
             # write through the captured reference
             if lhs['p'] and lhs['p'][0] == '*':
                 tgt = eb.place(lhs['l'], tuple(proj_key_(p) for p in lhs['p']), 0, (i, si))
-                if tgt.kind == 'place' and tgt.root == ('upvar', k) and not tgt.fields:
+                if tgt.kind == 'place' and tgt.root == ('upvar', k) and tuple(tgt.fields) == fields:
                     res['writes'].append(s['ln'])
                     res['write_blocks'].append(i)
                     continue
@@ -158,28 +176,36 @@ def accumulator_analysis(F, body):
             for (l, pj) in ref_targets(body, op):
                 if pj:
                     continue
-                # walk the capture chain
-                stack = [(top, k)]
-                writes, reads = [], []
-                seen = set()
-                while stack:
-                    cb, kk = stack.pop()
-                    if (cb.npath, kk) in seen:
-                        continue
-                    seen.add((cb.npath, kk))
-                    u = _upvar_uses(cb, kk)
-                    writes += u['writes']
-                    reads += ['%s in %s' % (r, cb.npath.rsplit('::', 1)[-1]) for r in u['other_reads']]
-                    for dp2, k2 in u['nested']:
-                        nb = F.closure_body(dp2)
-                        if nb is not None:
-                            stack.append((nb, k2))
-                d = out.setdefault(l, {'writers': [], 'readers': []})
-                if writes:
-                    d['writers'].append((top, bb, reads))
-                elif reads:
-                    d['readers'].append((top, bb, reads))
+                # which part of the captured variable carries running state: the variable itself, or fields of a
+                # captured struct (every field path written by some closure of this body)
+                fps = {()} | ACC_FIELDS.setdefault((body.npath, l), set()) | _upvar_written_fields(top, k)
+                ACC_FIELDS[(body.npath, l)] |= fps
+                for fp in sorted(fps):
+                    # walk the capture chain
+                    stack = [(top, k)]
+                    writes, reads = [], []
+                    seen = set()
+                    while stack:
+                        cb, kk = stack.pop()
+                        if (cb.npath, kk) in seen:
+                            continue
+                        seen.add((cb.npath, kk))
+                        u = _upvar_uses(cb, kk, fp)
+                        writes += u['writes']
+                        reads += ['%s in %s' % (r, cb.npath.rsplit('::', 1)[-1]) for r in u['other_reads']]
+                        for dp2, k2 in u['nested']:
+                            nb = F.closure_body(dp2)
+                            if nb is not None:
+                                stack.append((nb, k2))
+                    d = out.setdefault((l, fp), {'writers': [], 'readers': [], 'fields': fp})
+                    if writes:
+                        d['writers'].append((top, bb, reads))
+                    elif reads:
+                        d['readers'].append((top, bb, reads))
     return {l: d for l, d in out.items() if d['writers']}
+
+
+ACC_FIELDS = {}
 
 
 def rule_barrier(ctx, R, path, who):
@@ -229,11 +255,20 @@ def rule_barrier(ctx, R, path, who):
         for wcb, wbb, wreads in d['writers']:
             # the running maximum ranges over ALL distances of the stream: its update is not gated by the
             # acceptance test against max_distance
+            from lib import subst_upvars as _su
             for k in range(0, 8):
-                u = _upvar_uses(wcb, k)
+                u = _upvar_uses(wcb, k, d.get('fields', ()))
                 for wb in u['write_blocks']:
-                    gated = [c for c in path_conditions(wcb, wb) if c.cmp() and (
-                        c.cmp()[1].has_field('max_distance') or c.cmp()[2].has_field('max_distance'))]
+                    gated = []
+                    for c in path_conditions(wcb, wb):
+                        cm_ = c.cmp()
+                        if not cm_:
+                            continue
+                        # the acceptance threshold, wherever it is kept (self.max_distance or a copy of it in a
+                        # private state struct)
+                        sides = [_su(F, wcb, cm_[1]), _su(F, wcb, cm_[2])]
+                        if any(x.has_field('max_distance') for x in sides):
+                            gated.append(c)
                     n += 1
                     ctx.check(not gated, R, wcb, who + ':running-max-over-all-distances',
                               'update of the running maximum is not conditioned on the acceptance test',
@@ -315,6 +350,8 @@ def rule_filter_and_weights(ctx, R, path, who):
                     facts.append(cm)
             some = any(k.kind == 'discr' and k.variants == {'Some'} for k in path_conditions(cb, bb)) or \
                 bool(cb.find_calls('std::ops::Try::branch'))
+            from lib import subst_upvars as _su2
+            facts = [(cm[0], _su2(F, cb, cm[1]), _su2(F, cb, cm[2])) for cm in facts]
             for cm in facts:
                 o = orient(cm, lambda e: not (e.has_field('max_distance') or e.has_field('min_votes')))
                 if o is None:
@@ -343,8 +380,18 @@ def rule_filter_and_weights(ctx, R, path, who):
                     b2 = eb.operand(s_['rv']['b'], at=(i, si)).strip()
                     if 'f32' not in cb.locals[s_['lhs']['l']]:
                         continue
-                    a_up = a.kind == 'place' and a.root[0] == 'upvar' and not a.fields
-                    b_up = b2.kind == 'place' and b2.root[0] == 'upvar' and not b2.fields
+                    # the running maximum is captured state: a bare captured variable, or a field of a captured
+                    # accumulator struct — but never the configured threshold
+                    def acc_like(x):
+                        if not (x.kind == 'place' and x.root[0] == 'upvar'):
+                            return False
+                        if not x.fields:
+                            return True
+                        r = _su2(F, cb, x)
+                        return not (x.has_field('max_distance') or r.has_field('max_distance') or
+                                    r.has_field('min_votes'))
+                    from lib import subst_upvars as _su2
+                    a_up, b_up = acc_like(a), acc_like(b2)
                     if a_up and not b_up:
                         n += 1
                         found['weight'] = True
@@ -568,7 +615,28 @@ def rule_hungarian(ctx, R):
             continue
         n += 1
         e = eb.place(0, ()) if d[0] == 'assign' else eb._call(d[2], (), 0)
+        if d[0] == 'assign':
+            for si_, s_ in enumerate(b.blocks[bb]['st']):
+                if s_['k'] == 'assign' and s_['lhs']['l'] == 0 and not s_['lhs']['p'] and s_['rv'].get('k') == 'use':
+                    e = eb.operand(s_['rv']['op'], at=(bb, si_))
         from_solution = any(y.kind == 'call' and y.extra is k for y in e.walk())
+        if not from_solution and e.strip().kind == 'call' and e.strip().name.rsplit('::', 1)[-1] in ('new', 'default', 'with_capacity') \
+                and not e.strip().proj:
+            # loop form: the result is a fresh map filled by insert / extend calls — every filling call has to be
+            # dominated by the assignment call and take its values from the solution
+            src = [s_ for bb_ in [bb] for s_ in b.blocks[bb_]['st'] if s_['k'] == 'assign' and s_['lhs']['l'] == 0]
+            loc = None
+            if d[0] == 'assign' and src and src[-1]['rv'].get('k') == 'use' and src[-1]['rv']['op'].get('pl'):
+                loc = src[-1]['rv']['op']['pl']['l']
+            fills = []
+            for c in b.find_calls():
+                if c.name in ('insert', 'extend', 'push', 'entry', 'or_insert', 'or_insert_with') and c.args and \
+                        (eb.arg(c, 0).strip().extra is e.strip().extra and e.strip().extra is not None or
+                         loc is not None and eb.arg(c, 0).has_place(root=('local', loc))):
+                    fills.append(c)
+            from_solution = bool(fills) and all(
+                b.dominates(k.bb, c.bb) and any(y.kind == 'call' and y.extra is k for i_ in range(1, len(c.args))
+                                                for y in eb.arg(c, i_).walk()) for c in fills)
         ctx.check(b.dominates(k.bb, bb) and from_solution, R, b, 'hungarian:winners-from-solution',
                   'result derives from the kuhn_munkres solution',
                   'the returned winners do not derive from the kuhn_munkres solution on every path (greedy / '
